@@ -30,11 +30,19 @@ def pair_obligations(eng, short, claims, max_pairs=400, converse=None):
             prelude = pre1 + extra_funs + [l for l in pre2 if l.startswith("(declare-const")]
             pc = list(pc1) + [_rename(p, "~2") for p in pc2] + [f"(= {r1.s} {_rename(r2.s, '~2')})"]
 
+            def _get(env, name):
+                # parameters, ghost variables, or (H_<field>) the entry value of a tracked heap field
+                if name in env.env:
+                    return env.env[name]
+                if name in env.ghost:
+                    return env.ghost[name]
+                return env.heap[name[2:]]
+
             def a(name, env=e1):
-                return (env.env[name] if name in env.env else env.ghost[name]).s
+                return _get(env, name).s
 
             def b(name, env=e2):
-                return _rename((env.env[name] if name in env.env else env.ghost[name]).s, "~2")
+                return _rename(_get(env, name).s, "~2")
             consts = {}
             for nm, so in c1.decls:
                 consts.setdefault(sort_smt(so), []).append(nm)
